@@ -440,8 +440,6 @@ func selection(c *core.Ctx, fn, node *core.Fn, trueNil bool) {
 				if !(flagKnown && !flagVal) && !(flagKnown && flagVal && kept) {
 					okKeep = false
 				}
-			case ev.Node != nil && in(flagSets, ev.Node):
-				flagVal, flagKnown = true, true
 			}
 		}
 		if nS+nA != 1 {
